@@ -349,6 +349,10 @@ def sized_equals_written(fx):
     ]
     it0 = Interp(max_steps=50_000_000)
     genv0 = encoder_env(fx.forest, it0, get_eci_assignment_number=lambda enc_: 26)
+    try:
+        ref_iface = src.all_params(fx.fn('encoder', '_encode')) == ['segments', 'error', 'version', 'mask', 'eci', 'boost_error', 'sa_info']
+    except Unknown:
+        ref_iface = False
     for v in iso.ALL_VERSIONS:
         rv = mv[v] if v < 1 else v
         level = iso.levels_of(v)[0]
@@ -363,6 +367,8 @@ def sized_equals_written(fx):
                     inst = Instance.new(fx.forest, 'encoder', 'Segments', genv0, it0)
                     for sg in segs:
                         inst.add_segment(sg)
+                    if sa and not ref_iface and len(inst.segments) != 1:
+                        continue        # _encode was reorganised: the public sequence entry point builds one segment per symbol
                     rec, res, info = trace_encode(fx, rv, level, level, eci=eci, sa_info=SAModel((3, 1, 2, 99)) if sa else None, segments=inst,
                                                   real_write_segment=True, extra={'get_eci_assignment_number': lambda enc_: 26})
                     term = [r for r in rec if r[0] == 'write_terminator']
